@@ -78,3 +78,19 @@ package types
 //@   ensures 0 <= result0 && result0 < 18446744073709551616
 
 //@ impl modules/core/exported.PacketI = modules/core/04-channel/types.Packet
+
+// ---- channel identifiers (C15)
+//@ import strconv strconv
+
+//@ contract FormatChannelIdentifier
+//@   pure
+//@   ensures result == "channel-" + dec(sequence)
+
+//@ contract ParseChannelSequence
+//@   pure
+//@   decfull
+//@   let rest = substr(channelID, 8, len(channelID) - 8)
+//@   lemma generated_match_format: forall n int :: 0 <= n && n < 18446744073709551616 ==> IsChannelIDFormat("channel-" + dec(n))
+//@   lemma prefix_occurs_once: forall n int :: 0 <= n ==> !contains(substr("channel-" + dec(n), 1, len("channel-" + dec(n)) - 1), "channel-")
+//@   ensures roundtrip: forall n int :: 0 <= n && n < 18446744073709551616 && channelID == "channel-" + dec(n) ==> err == nil && result0 == n
+//@   ensures parsed_suffix: err == nil ==> channelID == "channel-" + rest && nth(strconv.ParseUint(rest, 10, 64), 1) == nil && result0 == nth(strconv.ParseUint(rest, 10, 64), 0)
